@@ -226,6 +226,7 @@ def _expr(s: dict, prog: dict) -> List[str]:
             "dropout0": f"F.dropout({x}, 0.0)", "dropout_eval": f"F.dropout({x}, 0.3, False)",
             "layer_norm": f"F.layer_norm({x}, ({h},), self.lnw{i}, self.lnb{i})", "layer_norm_mod": f"self.ln{i}({x})",
             "rms_norm": f"F.rms_norm({x}, ({h},), self.rw{i}, 1e-5)",
+            "scale_bwd": f"U.scale_bwd({x}, 0.5)", "scale_fwd": f"U.scale_fwd({x}, 1.5)",
         }
         return [f"{o} = {table[fn]}"]
     if op == "add":
@@ -430,6 +431,10 @@ class Plain:
             return F.layer_norm(x, (h,), P[f"ln{i}.weight"], P[f"ln{i}.bias"], 1e-5)
         if fn == "rms_norm":
             return F.rms_norm(x, (h,), P[f"rw{i}"], 1e-5)
+        if fn == "scale_bwd":
+            return U.scale_bwd(x, 0.5)
+        if fn == "scale_fwd":
+            return U.scale_fwd(x, 1.5)
         raise KeyError(fn)
 
     def add(self, s, a, b):
@@ -954,7 +959,7 @@ def stats(prog: dict) -> Dict[str, int]:
 ALLOW_TRACK = dict(
     linear_spells=["pos", "nobias", "kwbias", "module", "kwweight"],
     mask_spells=["kw", "pos"],
-    ew=["tanh", "relu", "mulc", "neg", "gelu", "silu", "softmax", "layer_norm", "layer_norm_mod", "sin", "dropout0"],
+    ew=["tanh", "relu", "mulc", "neg", "gelu", "silu", "softmax", "layer_norm", "layer_norm_mod", "sin", "dropout0", "scale_bwd", "scale_fwd"],
     shape=["flat", "transpose2", "slice_cat", "rotate_half", "stack_sum", "mul1", "index", "view"],
     add_spells=["plus", "torch.add"],
     plain_add=["fork", "fork", "param", "x2"],
